@@ -335,6 +335,12 @@ class Projector:
 
         edges = []
         for e in m.ir.cfg:
+            # an IR may hold several modules: edges between nodes of another module
+            # belong to that module's projection
+            om = getattr(e.source, "module", None)
+            tm = getattr(e.target, "module", None)
+            if om is not None and om is not m and (tm is None or tm is not m):
+                continue
             lab = e.label
             edges.append({
                 "s": node_desc(e.source), "t": node_desc(e.target),
@@ -492,7 +498,8 @@ def whole_ir_report(m: gtirb.Module, orig_cfg=None) -> dict:
     rep["cfg_type"] = type(m.ir.cfg).__name__
     rep["proxies_in_cfg_not_in_module"] = sum(
         1 for e in m.ir.cfg for n in (e.source, e.target)
-        if isinstance(n, gtirb.ProxyBlock) and n not in m.proxies)
+        if isinstance(n, gtirb.ProxyBlock) and n not in m.proxies
+        and (n.module is None or n.module is m))
     rep["sym_proxy_not_in_module"] = sum(
         1 for s in m.symbols
         if isinstance(s._payload, gtirb.ProxyBlock) and s._payload not in m.proxies)
